@@ -56,6 +56,9 @@ func checkC04(c *core.Ctx, r *core.Report) {
 		"(4) SCRATCH — the scratch map that PopulateFieldToValueFromMeasureResults fills for an eval aggregate holds exactly the measure's fields at every success return (an abstract interpretation over the facts keys ⊆ fields and fields ⊆ keys): its callers reuse the map across measures and records and take the number of result slots from len(map)."
 	r.NotCovered = "any numeric result, bucket boundaries, group-key uniqueness, sparse/mixed-type group-by behaviour, sketch error, the bookkeeping of per-measure result slots beyond the scratch-map clause"
 
+	c04FloorSnap(c, r)
+	c04UsageLattice(c, r)
+
 	nte := c.NamedType(pkgSutils, "NumTypeEnclosure")
 	st := nte.Underlying().(*types.Struct)
 	var fTag, fInt, fFloat *types.Var
